@@ -21,8 +21,8 @@ LEVEL_TEXT = ("Theorems about the integration kernels regenerated from forward.p
               "witnesses W2/W3 removed, statement now proved), 'fix: implicit integrator subtracted the RNE velocity derivative instead of adding it' (28a04d7), 'fix: plane-capsule contact frame "
               "ignored the capsule axis when it is within 30 degrees of the plane normal' (062cee5); their triggers stay as regression cases and no finding is expected.")
 LEVEL_NOTE = ("C08_partial: implicit/implicitfast are covered at the _advance level plus the sign of the RNE term at kernel level; the VALUE of flg_subtract at implicit()'s call of deriv_rne_vel and the "
-              "scalar scale / argument positions of the RK stage launches are not visible in Gen/Host.lean (the host extractor records kernels, conditions and array fields only): the lock-step "
-              "oracle (and C27's comparison with finite differences) decides those. The forward pass inside the stages is C01-C06; the final activation update of _advance is C03's next_act. "
+              "argument order / stage coefficient of the RK stage launches are pinned by theorems over the ordered launch-argument side table of Gen/Host.lean (implicit_rne_flag, rk_stage_launch_args); "
+              "the lock-step oracle (and C27's comparison with finite differences) checks the values. The forward pass inside the stages is C01-C06; the final activation update of _advance is C03's next_act. "
               "Trusted: Lean kernel + Mathlib, tier-B translator (interception), Spec/Integrate.lean as a transcription of MuJoCo's documented integrators and of the host functions "
               "_advance / rungekutta4 / _rk_perturb_state (the latter's launch list is machine-checked against Gen/Host.lean).")
 ASSUMPTIONS = ["tolerance 2e-4*(1+|x|) per step on qpos/qvel/act; time and warmstart compared too", "models are forwarded (mj_forward) before put_data so that cvel is consistent (see C12-stale-cvel)"]
